@@ -216,12 +216,12 @@ Proof.
   - rewrite uses_all in Hu. rewrite compile_do in Hc.
     eapply cbranch_u; [exact (Forall_uses _ _ H Hu) | exact Hc | reflexivity | exact I].
   - apply andb_true_iff in Hu. destruct Hu as [Hn Hu]. cbn [compile] in Hc. destruct (compile e c) as [r1 c1] eqn:E.
-    pose proof (IHe Hu _ _ _ E) as R1. destruct (rt r1); inversion Hc; subst.
+    pose proof (IHe Hu _ _ _ E) as R1. destruct (plain_assign r1); inversion Hc; subst.
     + apply uR_parts in R1. destruct R1 as [A [B _]]. apply uR_mk; [|exact I | reflexivity].
       rewrite uL_app, A, uL_one, uS_assign. cbn [uI]. rewrite Hn, B. reflexivity.
     + apply (uR_rename _ n Hn) in R1. apply uR_parts in R1. destruct R1 as [A _]. apply uR_mk; [exact A | exact I | reflexivity].
   - apply andb_true_iff in Hu. destruct Hu as [Hn Hu]. cbn [compile] in Hc. destruct (compile e c) as [r1 c1] eqn:E.
-    pose proof (IHe Hu _ _ _ E) as R1. destruct (rt r1); inversion Hc; subst.
+    pose proof (IHe Hu _ _ _ E) as R1. destruct (plain_assign r1); inversion Hc; subst.
     + apply uR_parts in R1. destruct R1 as [A [B _]]. apply uR_mk; [exact A | cbn [uE uI]; rewrite Hn, B; reflexivity | reflexivity].
     + apply uR_rename; assumption.
   - rewrite uses_all in Hu. pose proof (Forall_uses _ _ H Hu) as HA.
